@@ -275,7 +275,7 @@ class Tr:
             v = self.e(s.value)
             opt_call = isinstance(s.value, ast.Call) and len(self.t.calls.get(self.dotted(s.value.func), ())) > 2
             if self.t.ret.startswith("Option") and not (isinstance(s.value, ast.Constant) and s.value.value is None) \
-                    and not isinstance(s.value, ast.Name) and not opt_call:
+                    and not isinstance(s.value, ast.Name) and not opt_call and not v.lstrip("(").startswith("some "):
                 v = f"some {v}"
             return f"{pad}return {v}"
         if isinstance(s, ast.Assert):
